@@ -94,7 +94,7 @@ def check_fit(case):
         unbalanced = 0
     dup = len(np.unique(X, axis=0)) < n
     labels_ = [case["strategy"], "kmeans0" if case["kmeans0"] else "random-start", "nmodk=%d" % min(n % k, 3),
-               "balanced-predict" if case["balanced"] else "plain-predict", "dup" if dup else "nodup",
+               "balanced-predict" if case["balanced"] else "plain-predict", "dup" if dup else "nodup", "query-dups" if len(set(map(tuple, case["Q"]))) < len(case["Q"]) else "query-distinct",
                "kmeans-unbalanced>=2" if unbalanced >= 2 else "kmeans-balanced", "k=1" if k == 1 else ("n==k" if n == k else "n>k"),
                "n>256" if n > 256 else "n<=256", "batch>256" if mq > 256 else "batch<=256"]
     return Outcome(labels_, (n % k >= 2) or unbalanced >= 2 or dup)
@@ -130,6 +130,10 @@ def _cases(draw, tier="quick"):
     # scikit-learn needs at least k distinct points for k-means++ not to warn/fail; keep n>=k distinct when kmeans0
     mq = draw(st.integers(1, 20))
     Q = draw(st.lists(st.lists(_cell, min_size=d, max_size=d), min_size=mq, max_size=mq))
+    if draw(st.integers(0, 2)) == 0:
+        # a query batch with repeated rows (uneven multiplicities): the quota is about the batch, not about its distinct rows
+        qpool = Q[:max(1, mq // 3)]
+        Q = [draw(st.sampled_from(qpool)) if draw(st.integers(0, 2)) else q for q in Q]
     return dict(X=X, k=k, strategy=draw(st.sampled_from(["distance", "gain"])), kmeans0=draw(st.booleans()),
                 random_state=draw(st.one_of(st.none(), st.integers(0, 1000))), seed=draw(st.integers(0, 2**31 - 2)),
                 max_iter=draw(st.integers(2, 40)), n_init=draw(st.integers(1, 2)), balanced=draw(st.booleans()), Q=Q)
